@@ -536,12 +536,16 @@ def chk_rollback(K):
             if d.get("bad"):
                 if mode == "raise":
                     raise Boom("quantity failed")
+                if mode == "npstr":
+                    import numpy as _np
+
+                    return _np.str_("x")
                 return [1, 2] if mode == "type" else 1j
             return d["y"]
 
         return q
 
-    for mode in ("raise", "type", "complex"):
+    for mode in ("raise", "type", "complex", "npstr"):
         for ck in ("Sum", "Average", "Deviate", "Minimize", "Maximize", "Bin", "Sparse", "Cat"):
             q = bad_q(mode)
             child = {
@@ -555,24 +559,28 @@ def chk_rollback(K):
                 "Cat": lambda: hg.Categorize(lambda d: (_ for _ in ()).throw(Boom()) if d.get("bad") and mode == "raise" else (3.5 if d.get("bad") else d["c"]), hg.Count()),
             }[ck]
             CHILDREN["__bad__"] = child
-            if K in LEAVES:
-                h = {"Sum": hg.Sum, "Average": hg.Average, "Deviate": hg.Deviate, "Minimize": hg.Minimize, "Maximize": hg.Maximize}.get(K)
-                if h is None:
-                    continue
-                h = h(q)
-            else:
-                h = make(K, "__bad__")
-            for prefix in ([], good):
-                fill_all(h, prefix)
+            leafcls = {"Sum": hg.Sum, "Average": hg.Average, "Deviate": hg.Deviate, "Minimize": hg.Minimize, "Maximize": hg.Maximize}.get(K)
+            if K in LEAVES and leafcls is None:
+                continue
+            h = leafcls(q) if K in LEAVES else make(K, "__bad__")
+            for prefix, w0, wbad in (([], 1.0, 1.0), (good, 1.0, 1.0), (good, 0.1, 0.2), ([datum(2.5, c="a")], 0.1, 0.2)):
+                # weights 0.1 / 0.2 on a fresh tree: (e + w) - w is not e in doubles, so an "undo by subtraction" shows
+                if w0 != 1.0:
+                    h = leafcls(q) if K in LEAVES else make(K, "__bad__")
+                fill_all(h, prefix, w0)
                 for x in XS[:8]:
+                    if w0 != 1.0:
+                        # fresh tree per probe: earlier non-failing probes must not change the rounding situation
+                        h = leafcls(q) if K in LEAVES else make(K, "__bad__")
+                        fill_all(h, prefix, w0)
                     before = js(h)
                     d = datum(x, c="zz")
                     d["bad"] = True
                     try:
-                        h.fill(d)
+                        h.fill(d, wbad)
                     except Exception:
                         if js(h) != before:
-                            return f"{K}[{ck}] mode={mode}: a failing fill at x={x} changed the aggregator: {before} -> {js(h)}"
+                            return f"{K}[{ck}] mode={mode}: a failing fill at x={x} weight={wbad} changed the aggregator: {before} -> {js(h)}"
     return None
 
 
@@ -1097,6 +1105,9 @@ def mutate_docs(j):
             d = copy.deepcopy(j)
             get(d, parent)[key] = -1.0
             out.append((f"negative entries at {path}", d))
+            d = copy.deepcopy(j)
+            get(d, parent)[key] = "-inf"
+            out.append((f"negative entries spelled '-inf' at {path}", d))
     d = copy.deepcopy(j)
     d["version"] = "99.0"
     out.append(("incompatible version", d))
@@ -1114,6 +1125,8 @@ def chk_c15(K, include_bool=False):
                 r = hg.Factory.fromJson(d)
             except Exception:
                 continue
+            if mut.startswith("negative entries") or mut.startswith("rename type") or mut == "incompatible version":
+                return f"{what}: mutated document ({mut}) was accepted"
             # accepted: only acceptable if it is still a faithful, valid document (e.g. optional key removed)
             try:
                 back = json.dumps(r.toJson(), sort_keys=True)
@@ -1679,4 +1692,26 @@ def chk_stack_build():
             want = (sb * 2.0).toJson() if what != "clone.zero() + clone" else doc
             if not approx_eq(r.toJson(), want):
                 return f"Stack.build, {nm}: {what} differs from the same operation on the original"
+    return None
+
+
+
+def chk_stack_unsorted():
+    """Stack keeps its thresholds in the order given: level k holds the data with q >= t_k whatever the order
+    (outside the wf `thresholds increasing` of the proved Stack contracts)"""
+    for ths in ([5.0, 1.0, 3.0], [3.0, 1.0], [2.0, 2.0, 0.0], [0.0, 1.0, 2.0]):
+        for ck in ("Count", "Sum"):
+            h = hg.Stack(ths, qx, CHILDREN[ck]())
+            data = [datum(x) for x in (0.5, 2.0, 4.0, 6.0, NAN, INF, -INF, 1.0, 3.0, 5.0)]
+            ws = [1.0, 0.5, 2.0, 1.0, 1.0, 1.0, 1.0, 0.0, -1.0, 1.5]
+            for d, w in zip(data, ws):
+                h.fill(d, w)
+            levels = [(-INF)] + list(ths)
+            for (t, v), t0 in zip(h.bins, levels):
+                want = sum(w for d, w in zip(data, ws) if w > 0 and d["x"] == d["x"] and d["x"] >= t0)
+                if abs(v.entries - want) > 1e-12:
+                    return f"Stack({ths})[{ck}]: level with threshold {t0} holds {v.entries}, the data with q >= {t0} weigh {want}"
+            want_nan = sum(w for d, w in zip(data, ws) if w > 0 and d["x"] != d["x"])
+            if abs(h.nanflow.entries - want_nan) > 1e-12:
+                return f"Stack({ths})[{ck}]: nanflow holds {h.nanflow.entries}, expected {want_nan}"
     return None
